@@ -50,6 +50,10 @@ def rules(ctx):
                                                                P.func('_pcbo._special_constraints_eq_zero')])
     C02.recorded_copy_rules(ctx, E, P.func('PCBO.add_constraint_eq_zero'), 'R06.5', 'R06.5', 'PUBO')
     C02.record_not_shared(ctx, 'R06.5')
+    C02.record_helpers(ctx, 'R06.5')
+    from .C14 import refresh_order
+    refresh_order(ctx, 'R06.5')
+    C02.copy_ctor_counter(ctx, 'R06.5')
     C02.record_balance(ctx, 'R06.5', P.func('PCBO.add_constraint_eq_zero'), 'eq')
     C02.early_exits(ctx, 'R06.5', P.func('PCBO.add_constraint_eq_zero'))
     C02.lam_zero_rule(ctx, 'R06.5', P.func('PCBO.add_constraint_eq_zero'))
